@@ -23,7 +23,9 @@ STYLE_VALUES = ['color: red', 'color:red;float:left', ' padding-top : 5px ; ', '
 PLAIN_TEXT = ['x', ' ', '\n', 'hello world', '  two  ', 'a > b', 'é☃', '\t', 'x\ny', '1 < 2', 'a & b', '"q"', "it's", '\n  ', '>',
               '\xa0', '\u3000', 'x\xa0y', '\x1c', '\x85\n', '\u2003x', 'l1\r\nl2', 'x\ry', '\r\n']
 ATOMS = ['&amp;', '&nbsp;', '&lt;', '&#65;', '&#x41;', '&#8364;', '<!--c-->', '<!-- spaced -->', '<!---->', '<!--a-b-->',
-         '<!--x > y-->', '<!--multi\nline-->', '<!--cr\r\nlf-->']
+         '<!--x > y-->', '<!--multi\nline-->', '<!--cr\r\nlf-->',
+         # comments that are nearly, but not, IE conditionals (those are stripped from every input before it is parsed)
+         '<!-- if the user is logged in -->', '<!--if-->', '<!--iframe x-->', '<!--x [if y]>z-->', '<!-- IF x-->', '<!--[IF x]-->']
 RAW_TEXT = ['x', 'if (a<b && c) {}', 'a { color: red }', '\n  var s = "</div>";\n', '<!-- x -->', 'a &amp; b', '']
 DOCTYPES = ['DOCTYPE html', 'doctype html', 'DOCTYPE html PUBLIC "-//W3C//DTD XHTML 1.0//EN"']
 
